@@ -8,6 +8,7 @@ import (
 	"os"
 	"path/filepath"
 	"testing"
+	"time"
 	"unicode/utf8"
 
 	"github.com/tailscale/setec/audit"
@@ -35,6 +36,10 @@ type CondCase struct {
 	// the call is served): the call reports an error, nothing changes, and the conditional gets that
 	// follow are answered from the state before it
 	FailSave []int `json:"fail_save,omitempty"`
+	// HTTP only: from this call on (1-based; 0 = never) the context the server was constructed with has
+	// ended (the process is draining) while its handlers still serve: an answer may then be a refusal,
+	// but a "not changed" or a value is as right as ever
+	ServerCtxEndsAt int `json:"server_ctx_ends_at,omitempty"`
 }
 
 var c09Names = []string{"a", "a", "a", "b", "dev/c", "zz-absent"}
@@ -66,6 +71,9 @@ func genCondCase(rt *rapid.T) CondCase {
 	if rapid.IntRange(0, 2).Draw(rt, "withsavefail") == 0 {
 		c.FailSave = rapid.SliceOfN(rapid.IntRange(0, len(c.Ops)), 1, 6).Draw(rt, "failsave")
 	}
+	if c.HTTP && rapid.IntRange(0, 3).Draw(rt, "serverctx") == 0 {
+		c.ServerCtxEndsAt = rapid.IntRange(1, len(c.Ops)).Draw(rt, "serverctxat")
+	}
 	return c
 }
 
@@ -95,6 +103,10 @@ func fileClientFor(dir string, m model.KV, text bool) (*setec.FileClient, map[st
 	if err := os.WriteFile(p, b, 0o600); err != nil {
 		return nil, nil, err
 	}
+	// the tool that deploys the secrets file preserves a fixed time stamp (reproducible builds do):
+	// what a file-backed client serves is what the file says when the client is constructed
+	stamp := time.Unix(1700000000, 0)
+	os.Chtimes(p, stamp, stamp)
 	fc, err := setec.NewFileClient(p)
 	return fc, served, err
 }
@@ -111,6 +123,7 @@ func runC09(t *testing.T, c CondCase) (*h.Violation, h.Info) {
 	callers := []dbx.CallerM{su, low, dbx.Restricted(2, nil), dbx.Restricted(4, c.Rules)}
 	var tgt dbx.Target
 	var sink *flakyAudit
+	endServerCtx, serverCtxEnded := func() {}, false
 	tr := dbx.NewTracker()
 	tr.Wire = c.HTTP
 	start := func() *h.Violation {
@@ -121,7 +134,12 @@ func runC09(t *testing.T, c CondCase) (*h.Violation, h.Info) {
 		}
 		tgt = dbx.DBTarget{D: d}
 		if c.HTTP {
-			ht, err := dbx.NewHTTP(d, callers)
+			var sctx context.Context
+			sctx, endServerCtx = context.WithCancel(context.Background())
+			if serverCtxEnded {
+				endServerCtx()
+			}
+			ht, err := dbx.NewHTTPCtx(sctx, d, callers)
 			if err != nil {
 				return h.V("harness", "server: %v", err)
 			}
@@ -129,6 +147,7 @@ func runC09(t *testing.T, c CondCase) (*h.Violation, h.Info) {
 		}
 		return nil
 	}
+	defer func() { endServerCtx() }()
 	if v := start(); v != nil {
 		return v, info
 	}
@@ -139,6 +158,11 @@ func runC09(t *testing.T, c CondCase) (*h.Violation, h.Info) {
 	}
 	activatedBack := map[string]bool{}
 	for i, op := range c.Ops {
+		if c.HTTP && c.ServerCtxEndsAt > 0 && i+1 == c.ServerCtxEndsAt {
+			endServerCtx()
+			serverCtxEnded = true
+			info.Class("server-context-ended-while-serving")
+		}
 		ver := tr.Resolve(op)
 		caller := callers[op.Caller]
 		s := tr.M[op.Name]
@@ -213,6 +237,10 @@ func runC09(t *testing.T, c CondCase) (*h.Violation, h.Info) {
 			got = *early
 		} else {
 			got = tgt.Do(caller, op, ver)
+		}
+		if serverCtxEnded && got.Class == model.Other && want.Class != model.Other {
+			tr = trBefore // a draining server may turn requests away; then nothing happened
+			continue
 		}
 		if diff := dbx.Compare(got, want); diff != "" {
 			clause := "result-equals-model"
